@@ -309,6 +309,28 @@ func (n *simNode) onPoint(name string) {
 		n.snapAt = name
 		n.snapGate.park(n)
 		return
+	case "loop.exit":
+		// the raft goroutine leaves stateLoop (shutdown, or a panic is unwinding):
+		// Serve's deferred functions wait for the FSM and snapshot goroutines,
+		// which therefore must not stay parked
+		w := n.w
+		w.mu.Lock()
+		if n.free {
+			w.mu.Unlock()
+			return
+		}
+		n.free = true
+		var rel []*gate
+		for _, g := range []*gate{n.fsmGate, n.snapGate} {
+			if g.parked {
+				rel = append(rel, g)
+			}
+		}
+		w.mu.Unlock()
+		for _, g := range rel {
+			g.release(false)
+		}
+		return
 	}
 	// storage mutation point inside a step
 	n.points = append(n.points, name)
